@@ -31,6 +31,8 @@ pub enum TypeSystemDefinition {
 /// [extensions](https://spec.graphql.org/October2021/#SchemaExtension).
 #[derive(Debug, Clone)]
 pub struct SchemaDefinition {
+    /// The description of the schema, if present.
+    pub description: Option<Positioned<String>>,
     /// Whether the schema is an extension of another schema.
     pub extend: bool,
     /// The directives of the schema definition.
